@@ -616,15 +616,28 @@ C16_Accept(c, trk, call, o) ==
            /\ (Has(o.v, "clone") => /\ EqUpTo(o.v.clone.bytes, o.v.bytes, total, FALSE)
                                     /\ HeapObjOk(o.v.clone, total) /\ CloneEq(o.v.clone))
     [] OTHER -> TRUE
+\* a heap-allocated tag handed to a builder's setter lies at an 8-aligned address, in an allocation that was requested
+\* 8-aligned with the tag's rounded size (the recorded events also contain the harness's own argument parsing: only the
+\* allocation of the tag itself is judged)
+SuppliedHeapOk(v) ==
+  Has(v, "allocs") =>
+    /\ v.al = 0
+    /\ LET A == {i \in 1..Len(v.allocs) : v.allocs[i].ev = "alloc" /\ v.allocs[i].id = v.obj} IN
+       A # {} => LET a == v.allocs[CHOOSE i \in A : \A j \in A : i >= j] IN a.size = v.sv /\ a.align % 8 = 0 /\ a.align > 0
 C06_Accept(c, trk, call, o) ==
-  CASE call.op = "use_built" ->
+  CASE call.op = "b_set" /\ trk.hasb -> o.k = "ok" => SuppliedHeapOk(o.v)
+    \* the built structure loads wherever its bytes lie (the Box itself, a copy at another 8-aligned address)
+    [] call.op = "load" /\ trk.img = "info" -> o.k = "ok" /\ o.v.total = Len(trk.built)
+    [] call.op = "use_built" ->
          IF (call.which = "info" /\ trk.built = <<>>) \/ (call.which = "header" /\ trk.hbuilt = <<>>) THEN o.k = "skipped" ELSE o.k = "unit"
     [] call.op = "b_build" -> IF ~trk.hasb THEN o.k = "skipped" ELSE o.k = "ok" /\ AcceptInfoBuild(trk.bld, o.v)
     [] call.op = "b_load" -> IF trk.built = <<>> THEN TRUE
                              ELSE o.k = "ok" /\ o.v.total = Len(trk.built) /\ o.v.ntags = Len(InfoWalk(trk.built).items)
     [] OTHER -> TRUE
 C12_Accept(c, trk, call, o) ==
-  CASE call.op = "hb_build" -> IF ~trk.hashb THEN o.k = "skipped" ELSE o.k = "ok" /\ AcceptHdrBuild(trk.harch, trk.hbld, o.v)
+  CASE call.op = "hb_set" /\ trk.hashb -> o.k = "ok" => SuppliedHeapOk(o.v)
+    [] call.op = "hload" /\ trk.img = "header" -> o.k = "ok"
+    [] call.op = "hb_build" -> IF ~trk.hashb THEN o.k = "skipped" ELSE o.k = "ok" /\ AcceptHdrBuild(trk.harch, trk.hbld, o.v)
     [] call.op = "hb_load" -> IF trk.hbuilt = <<>> THEN TRUE
                               ELSE o.k = "ok" /\ o.v.length = U32Bytes(Len(trk.hbuilt)) /\ o.v.ntags = Len(HWalk(trk.hbuilt).items)
     [] OTHER -> TRUE
